@@ -377,7 +377,26 @@ inline std::vector<std::function<void()>> legalizationPrimers() {
       guarded([&] { d.placeDetailed(p); });
     };
   };
-  return {std::function<void()>(), mk(1), mk(2), mk(3)};
+  // primers 4 and 5: the same on rows of height 4 and 1 (a value remembered from the first call of a process - a row height,
+  // a window size - then differs from what the instances use)
+  auto mkH = [](int rh) {
+    return [rh]() {
+      Spec s;
+      for (int i = 0; i < 4; ++i) s.rows.push_back(mkRow(0, 16, i, rh, i % 2 ? oFS : oN));
+      for (int i = 0; i < 6; ++i) { CellSpec c; c.w = 1 + i % 3; c.h = rh; c.x = 2 * i; c.y = (i % 4) * rh; s.cells.push_back(c); }
+      NetSpec nt; nt.pins = {{0, 0, 0}, {5, 1, 0}};
+      s.nets = {nt};
+      ColoquinteParameters p(7, 0);
+      Circuit c = build(s);
+      guarded([&] { c.legalize(p); });
+      Circuit d = build(s);
+      guarded([&] { d.placeDetailed(p); });
+      Circuit g = build(s);
+      p.global.maxNbSteps = 3;
+      guarded([&] { g.placeGlobal(p); });
+    };
+  };
+  return {std::function<void()>(), mk(1), mk(2), mk(3), mkH(4), mkH(1)};
 }
 
 }  // namespace vt
